@@ -41,7 +41,7 @@ def space(tier: str) -> List[scope.Case]:
         _SPACE_CACHE[tier] = c14_space(tier)
     if tier not in _SPACE_CACHE:
         quick = tier == "quick"
-        cases = scope.sing_space(tier) + scope.comb_space(2 if quick else 3 if os.environ.get("BPMC_COMB3") else 2) \
+        cases = scope.sing_space(tier) + scope.comb_space(2 if quick else 3) \
             + scope.tree_space(4 if quick else 5)
         # canonical de-duplication: same printed schema (names normalised) explored once
         seen, out = set(), []
@@ -424,7 +424,7 @@ def main(pid: str, tier: str) -> int:
              "non-trivial = some value bit set and more than one leaf/prefix in the layout; distinct by (schema, value) "
              "construction; object histories: %d event sequences per state on freshly imported modules" % (vmax(tier), len(HISTORIES)),
         exhaustive=True,
-        bound="SING(%s) u COMB(2) u TREE(%d), Vmax=%d, history deviations=%d" % (tier, 4 if tier == "quick" else 5, vmax(tier), len(HISTORIES) - 1),
+        bound="SING(%s) u COMB(2; thorough 3) u TREE(%d), Vmax=%d, history deviations=%d" % (tier, 4 if tier == "quick" else 5, vmax(tier), len(HISTORIES) - 1),
         scope_sizes=dict(total_states=len(space(tier))),
     )
     return finish(pid, tier, acc, cov, t0,
